@@ -6,7 +6,10 @@ import (
 	"math/rand"
 	"os"
 	"os/exec"
+	"runtime"
+	"runtime/debug"
 	"strings"
+	"syscall"
 	"time"
 
 	"github.com/d5/tengo/v2"
@@ -113,6 +116,14 @@ func c05Atom(r *rand.Rand, idx int) string {
 		var args []string
 		for i := 0; i < n; i++ {
 			args = append(args, v())
+		}
+		if b == "range" && len(args) >= 2 {
+			// astronomically long ranges are the recorded finding (probed separately): keep the others
+			for i, a := range args {
+				if i < 2 && (a == "9223372036854775807" || a == "-9223372036854775808") {
+					args[i] = "77"
+				}
+			}
 		}
 		return fmt.Sprintf("h := %s(%s)", b, strings.Join(args, ", "))
 	case 16:
@@ -486,16 +497,45 @@ var c05CyclicProbes = []struct{ name, src string }{
 	{"format(\"%v\", a)", "a := [0]; a[0] = a; s := format(\"%v\", a)"},
 	{"host: Variable.String()", "a := [0]; a[0] = a"},
 	{"host: Compiled.Clone()", "m := {}; m.self = m"},
+	// an astronomically long range: the builtin neither returns nor can be interrupted, and grows without bound
+	{"huge-range: range(0, 9223372036854775807)", "h := range(0, 9223372036854775807)"},
+	{"huge-range: range(9223372036854775807, 0, 1)", "h := range(9223372036854775807, 0, 1)"},
+	{"survive: range(0, 300000)", "h := range(0, 300000); n := len(h)"},
 }
 
 // C05Helper runs one cyclic probe in its own process.
 func C05Helper(i int) int {
+	// a small stack cap: unbounded recursion is recognised after 32 MiB instead of 1 GiB (the garbage
+	// collector scanning a gigabyte of stack made one probe cost a minute of CPU time)
+	debug.SetMaxStack(32 << 20)
 	p := c05CyclicProbes[i]
 	s := tengo.NewScript([]byte(p.src))
 	cp, err := s.Compile()
 	if err != nil {
 		fmt.Println("COMPILE-ERROR", err)
 		return 3
+	}
+	if strings.HasPrefix(p.name, "huge-range:") || strings.HasPrefix(p.name, "survive: range") {
+		// the child judges itself on its own CPU time and heap, not on the wall clock
+		go func() {
+			var ms runtime.MemStats
+			var ru syscall.Rusage
+			for {
+				time.Sleep(50 * time.Millisecond)
+				runtime.ReadMemStats(&ms)
+				_ = syscall.Getrusage(syscall.RUSAGE_SELF, &ru)
+				cpu := ru.Utime.Sec + ru.Stime.Sec
+				if ms.HeapAlloc > 1<<30 || cpu > 30 {
+					fmt.Printf("NO-RETURN after cancellation: live heap %d MiB, cpu %d s\n", ms.HeapAlloc>>20, cpu)
+					os.Exit(5)
+				}
+			}
+		}()
+		ctx, cancel := context.WithTimeout(bg, 200*time.Millisecond)
+		defer cancel()
+		err = cp.RunContext(ctx)
+		fmt.Println("SURVIVED", err)
+		return 0
 	}
 	err = cp.RunContext(bg)
 	switch p.name {
@@ -525,6 +565,11 @@ func (c *c05) cyclicProbe(r *fw.Rec, i int) {
 		return
 	}
 	o := string(out)
+	if strings.HasPrefix(p.name, "huge-range:") {
+		r.Violate("fatal:"+p.name, "a script asking for an astronomically long range makes RunContext neither return nor honour its context, while memory grows without bound",
+			map[string]interface{}{"source": p.src, "child_output_head": trunc(o, 600)})
+		return
+	}
 	what := "process died"
 	if strings.Contains(o, "stack overflow") || strings.Contains(o, "stack exceeds") {
 		what = "fatal error: stack overflow"
